@@ -225,7 +225,7 @@ def o_attr(xs, k):
     b.n = k
     b.n += len(xs)
     b.tag = b"t" * k
-    b.items.append(k)          # receiver is an attribute path: needs the write-back of PyAstMut
+    b.items.append(k)          # receiver is an attribute path: written back through w_setattr
     b.items.extend(xs)
     for x in xs:
         if x == 3:
